@@ -709,12 +709,9 @@ func (s *Session) SetUnmarshaller(unmarshaller Unmarshaller) {
 }
 
 func (s *Session) Stop() (err error) {
-	defer func() {
-		s.eventHandler.Clean()
-	}()
-
 	err = s.Logout()
 	if err != nil {
+		s.eventHandler.Clean()
 		return fmt.Errorf("sendWithErrorCheck logout request: %w", err)
 	}
 
@@ -722,6 +719,9 @@ func (s *Session) Stop() (err error) {
 		s.cancel()
 	})
 
+	// The application's callbacks are dropped first, so that the callback
+	// awaiting the peer's Logout answer is not removed together with them.
+	s.eventHandler.Clean()
 	s.OnChangeState(utils.EventLogout, func() bool {
 		delayTimer.Stop()
 		s.cancel()
